@@ -274,11 +274,37 @@ func coveringLoop(c *Ctx, info *types.Info, loop ast.Stmt) (types.Object, string
 		return nil, bad
 	case *ast.ForStmt:
 		if l.Cond == nil {
-			return nil, "the loop has no condition"
+			return nil, "skip: the loop has no condition"
 		}
 		it := findIterCond(info, l.Cond, "HasNext")
 		if it == nil {
-			return nil, "the loop condition is not `iterator.HasNext()`"
+			// a counting loop from zero up to a length, stepped by one: it visits every position
+			// (for index := 0; index < len(snapshot); index++); other conditions are forms this
+			// rule does not read
+			counting := false
+			if as, ok := l.Init.(*ast.AssignStmt); ok && len(as.Lhs) == 1 && len(as.Rhs) == 1 {
+				if tv, ok := info.Types[as.Rhs[0]]; ok && tv.Value != nil && tv.Value.ExactString() == "0" {
+					if be, ok := ast.Unparen(l.Cond).(*ast.BinaryExpr); ok && be.Op == token.LSS && identObj(info, be.X) != nil && identObj(info, be.X) == identObj(info, as.Lhs[0]) {
+						if inc, ok := l.Post.(*ast.IncDecStmt); ok && inc.Tok == token.INC && identObj(info, inc.X) == identObj(info, as.Lhs[0]) {
+							counting = true
+						}
+					}
+				}
+			}
+			if !counting {
+				return nil, "skip: the loop condition is not `iterator.HasNext()`"
+			}
+			bad := ""
+			inspectNoLit(l.Body, func(x ast.Node) bool {
+				switch s := x.(type) {
+				case *ast.BranchStmt:
+					bad = fmt.Sprintf("a %s at %s ends or skips an iteration: not every element is processed", s.Tok, c.pos(s.Pos()))
+				case *ast.ReturnStmt:
+					bad = fmt.Sprintf("a return at %s leaves the loop early: not every element is processed", c.pos(s.Pos()))
+				}
+				return true
+			})
+			return nil, bad
 		}
 		if _, isCall := ast.Unparen(l.Cond).(*ast.CallExpr); !isCall {
 			return it, "the loop condition is " + exprStr(l.Cond) + ", not just `iterator.HasNext()`: the traversal can stop before the last element"
@@ -386,10 +412,10 @@ func foldOver(c *Ctx, info *types.Info, fd *ast.FuncDecl, operands []types.Objec
 	}
 	it, bad := coveringLoop(c, info, loops[0])
 	if bad != "" {
-		if strings.Contains(bad, "is not `iterator.HasNext()`") || strings.Contains(bad, "no condition") {
-			return "skip: " + bad
-		}
 		return bad
+	}
+	if w := conditionalStepNeverRead(c, info, fd, loops[0]); w != "" {
+		return w
 	}
 	// the iterator enumerates a parameter
 	srcOK := false
@@ -853,4 +879,78 @@ func recvNamedOfDecl(c *Ctx, fd *ast.FuncDecl) *types.Named {
 		return recvNamed(fn)
 	}
 	return nil
+}
+
+// conditionalStepNeverRead: a position counter declared outside the loop that is stepped only on
+// some paths through the loop body (under an if, or behind a guard that skips the rest of the
+// round) and never read after the loop.  A counter that compacts (count the hits, then cut the
+// result to the count) is read afterwards; one that is not read afterwards was meant to run in
+// step with the loop, and every round that skips the step stores the following elements one
+// position early and leaves the last positions unfilled.
+func conditionalStepNeverRead(c *Ctx, info *types.Info, fd *ast.FuncDecl, loop ast.Stmt) string {
+	var body *ast.BlockStmt
+	switch l := loop.(type) {
+	case *ast.ForStmt:
+		body = l.Body
+	case *ast.RangeStmt:
+		body = l.Body
+	}
+	if body == nil {
+		return ""
+	}
+	res := ""
+	for _, st := range body.List {
+		is, ok := st.(*ast.IfStmt)
+		if !ok {
+			continue
+		}
+		ast.Inspect(is, func(x ast.Node) bool {
+			inc, ok := x.(*ast.IncDecStmt)
+			if !ok || res != "" {
+				return true
+			}
+			o := identObj(info, inc.X)
+			if o == nil || (o.Pos() >= loop.Pos() && o.Pos() < loop.End()) {
+				return true
+			}
+			// used as a position inside the loop body?
+			positional := false
+			ast.Inspect(body, func(y ast.Node) bool {
+				switch e := y.(type) {
+				case *ast.IndexExpr:
+					ast.Inspect(e.Index, func(z ast.Node) bool {
+						if id, ok := z.(*ast.Ident); ok && info.Uses[id] == o {
+							positional = true
+						}
+						return true
+					})
+				case *ast.CallExpr:
+					if _, mname, call, ok := methodCall(e); ok && (mname == "SetValue" || mname == "InsertValue") && len(call.Args) >= 1 {
+						ast.Inspect(call.Args[0], func(z ast.Node) bool {
+							if id, ok := z.(*ast.Ident); ok && info.Uses[id] == o {
+								positional = true
+							}
+							return true
+						})
+					}
+				}
+				return true
+			})
+			if !positional {
+				return true
+			}
+			readAfter := false
+			ast.Inspect(fd.Body, func(y ast.Node) bool {
+				if id, ok := y.(*ast.Ident); ok && info.Uses[id] == o && id.Pos() > loop.End() {
+					readAfter = true
+				}
+				return true
+			})
+			if !readAfter {
+				res = fmt.Sprintf("the position %s is stepped at %s only on some paths through the loop body and is never read after the loop: a round that skips the step stores the elements that follow one position early, and the last positions keep their zero values", o.Name(), c.pos(inc.Pos()))
+			}
+			return true
+		})
+	}
+	return res
 }
